@@ -37,8 +37,35 @@ Streams(n, v) ==
   \cup (IF v \in XerSubset(n)
         THEN {<<"CXER", Ser(XerTokens(Env, n, TRef(n), v), "canon")>>, <<"BXER", Ser(XerTokens(Env, n, TRef(n), v), "lf")>>}
         ELSE {})
+\* C03: alternative valid encodings of v (Variants.tla); each is decoded one-shot, then the
+\* structure is re-encoded in DER (which must give the canonical octets)
+VarPlan(syn, bytes, style) == <<OpDecodeLit(1, syn, bytes, style), OpEncode(1, "DER")>>
+BerVariants(n, v) ==
+  LET der == Enc("DER", TRef(n), v)
+  IN {VarPlan("DER", BerVar(Env, TRef(n), v, BerStyles[i]), StyleName(i)) : i \in DOMAIN BerStyles}
+     \ {VarPlan("DER", der, StyleName(i)) : i \in DOMAIN BerStyles}
+PerOerVariants(n, v) ==
+  (IF HasTopDefault(Env, TRef(n))
+   THEN {VarPlan("UPER", UPER(Env, NoDefaults(Env, TRef(n)), WithDefaults(Env, TRef(n), v)), "defaults-present"),
+         VarPlan("OER", OER(Env, NoDefaults(Env, TRef(n)), WithDefaults(Env, TRef(n), v)), "defaults-present")}
+   ELSE {})
+  \cup
+  (IF IsExtSeq(Env, TRef(n))
+   THEN {VarPlan("UPER", UPER(Env, Newer(Env, TRef(n)), NewerVal(v, x)), "unknown-extension") : x \in {<<7>>, <<1, 2, 3>>, Zeros(130)}}
+        \cup {VarPlan("OER", OER(Env, Newer(Env, TRef(n)), NewerVal(v, x)), "unknown-extension") : x \in {<<7>>, <<1, 2, 3>>, Zeros(130)}}
+   ELSE {})
+XerVariants(n, v) ==
+  IF v \notin XerSubset(n) THEN {}
+  ELSE LET toks == XerTokens(Env, n, TRef(n), v)
+       IN {VarPlan("BXER", Ser(toks, "lf"), "lf"), VarPlan("BXER", Ser(toks, "crlf-tab"), "crlf-tab"),
+           VarPlan("BXER", Ser(toks, "comment"), "comment"), VarPlan("CXER", Ser(toks, "canon"), "canon"),
+           VarPlan("BXER", Ser(Collapse(toks), "lf"), "empty-elements")}
+          \cup (IF HasTopDefault(Env, TRef(n))
+                THEN {VarPlan("BXER", Ser(XerTokens(Env, n, NoDefaults(Env, TRef(n)), WithDefaults(Env, TRef(n), v)), "lf"), "defaults-present")}
+                ELSE {})
 PlansFor(n, v) ==
-  CASE PlanSet = "split" -> UNION {Splits(st[1], st[2]) : st \in Streams(n, v)}
+  CASE PlanSet = "variants" -> BerVariants(n, v) \cup PerOerVariants(n, v) \cup XerVariants(n, v)
+    [] PlanSet = "split" -> UNION {Splits(st[1], st[2]) : st \in Streams(n, v)}
     [] PlanSet = "chunks" -> UNION {(IF Len(st[2]) <= MaxCompose THEN AllChunkings(st[1], st[2]) ELSE {})
                                     \cup ByteWise(st[1], st[2]) : st \in Streams(n, v)}
     [] OTHER -> Plans
